@@ -25,6 +25,8 @@ RULE = (
     "encoding (declared on both sides) x query points. Distinct = distinct "
     "case hash; non-trivial = at least one unlabeled row on side A or B and "
     "at least two labeled rows.")
+RULE += (" Further generated dimensions (added while closing seeded "
+         "changes): " + 'weights at missing entries of partially labeled rows (AnnotatorLogisticRegression); labels revealed in two steps on one object (reveal); Parzen kernels that are not translation invariant (linear, polynomial, cosine, sigmoid, laplacian); a bulk of 1030-2100 unlabeled rows on side A' + ".")
 ASSUMPTIONS = [
     "ParzenWindowClassifier: gamma numeric or scikit-learn's default "
     "1/n_features, n_neighbors=None (gamma='mean' and neighbour limits use "
